@@ -13,12 +13,21 @@ Proof.
   destruct (f x), (g x), (forallb f l), (forallb g l); reflexivity.
 Qed.
 
-Theorem tensor_mttkrp_decides s us n : guard_tensor_mttkrp s us n = decide (pre_mttkrp s us n).
+(* the precondition of mttkrp, split into the row and the column requirement *)
+Lemma pre_mttkrp_split s us n :
+  pre_mttkrp s us n = (2 <=? ndim s) && (zlen us =? ndim s) && in_range (ndim s) n &&
+                      (mttkrp_rows_ok s us n && mttkrp_cols_ok (ndim s) us n).
 Proof.
-  apply decide_by. unfold guard_tensor_mttkrp, guard_mttkrp_factors, pre_mttkrp, mttkrp_R. okb.
-  rewrite forallb_is_ok_chk. rewrite <- !andb_assoc. do 3 f_equal.
+  unfold pre_mttkrp, mttkrp_rows_ok, mttkrp_cols_ok, mttkrp_R. cbv zeta. f_equal.
   rewrite forallb_and. apply forallb_ext_in. intros [i u] _. cbn [fst snd].
   destruct (i =? n); reflexivity.
+Qed.
+
+Theorem tensor_mttkrp_decides s us n : guard_tensor_mttkrp s us n = decide (pre_mttkrp s us n).
+Proof.
+  apply decide_by. rewrite pre_mttkrp_split. unfold guard_tensor_mttkrp, guard_mttkrp_factors. cbv zeta. okb.
+  rewrite forallb_is_ok_chk. unfold mttkrp_rows_ok.
+  destruct (2 <=? ndim s), (zlen us =? ndim s), (in_range (ndim s) n), (forallb _ _), (mttkrp_cols_ok (ndim s) us n); reflexivity.
 Qed.
 
 (* collapse: every ill-formed mode list is refused on a tensor that has entries *)
@@ -34,11 +43,11 @@ Proof.
   - now rewrite dimscheck_rejects_bad_modes.
 Qed.
 
-(* sparse constructor: exact on non-empty rectangular subscript arrays (C19-N14 repaired: the lower bound is checked);
-   an array without rows skips every comparison, the value count included (C19-N16) *)
-Definition sptensor_ctor_stmt : Prop := forall s subs nvals, guard_sptensor_ctor s subs nvals = decide (pre_sptensor_ctor s subs nvals).
-Theorem sptensor_ctor_refuted : ~ sptensor_ctor_stmt.
-Proof. intros H. specialize (H [2; 3] [] 3). vm_compute in H. discriminate. Qed.
+(* sparse constructor (C19-N14 repaired: the lower bound is checked; C19-N16 repaired: an array without rows admits no
+   values).  A subscript ARRAY is a list of rows of one length; an array with rows has at least one column (a p x 0 array,
+   p > 0, is "an empty array in weird format" to the constructor and is not modelled). *)
+Definition rect_array (subs : list vec) : Prop :=
+  (forall row, In row subs -> zlen row = zlen (hd [] subs)) /\ (subs <> [] -> hd [] subs <> []).
 
 Lemma sub_ok_split (s row : vec) : zlen row = ndim s ->
   sub_ok s row = forallb (fun x => 0 <=? x) row && forallb (fun p => fst p <? snd p) (combine row s).
@@ -49,7 +58,7 @@ Proof.
   destruct (0 <=? x), (x <? d), (forallb (fun x0 => 0 <=? x0) row); reflexivity.
 Qed.
 
-Theorem sptensor_ctor_partial s subs nvals :
+Lemma sptensor_ctor_nonempty s subs nvals :
   subs <> [] -> hd [] subs <> [] ->
   (forall row, In row subs -> zlen row = zlen (hd [] subs)) ->            (* a rectangular array *)
   guard_sptensor_ctor s subs nvals = decide (pre_sptensor_ctor s subs nvals).
@@ -64,6 +73,14 @@ Proof.
   - rewrite !andb_false_r. symmetry. apply andb_false_iff. left.
     destruct subs as [|r0 rest]; [congruence|]. cbn [forallb hd] in *. unfold sub_ok at 1.
     destruct (Z.eqb_spec (zlen r0) (ndim s)); [contradiction|reflexivity].
+Qed.
+
+Theorem sptensor_ctor_decides s subs nvals : rect_array subs ->
+  guard_sptensor_ctor s subs nvals = decide (pre_sptensor_ctor s subs nvals).
+Proof.
+  intros [Hrect Hc]. destruct subs as [|r0 rest].
+  - apply decide_by. unfold guard_sptensor_ctor, pre_sptensor_ctor. cbn. now rewrite is_ok_chk.
+  - apply sptensor_ctor_nonempty; [discriminate|apply Hc; discriminate|exact Hrect].
 Qed.
 
 (* algorithm options *)
@@ -126,8 +143,8 @@ Theorem ttensor_mttkrp_decides s us n : guard_ttensor_mttkrp s us n = decide (pr
 Proof.
   rewrite <- tensor_mttkrp_decides.
   rewrite (res_unit_decide (guard_ttensor_mttkrp s us n)), (res_unit_decide (guard_tensor_mttkrp s us n)). f_equal.
-  unfold guard_ttensor_mttkrp, guard_tensor_mttkrp, guard_mttkrp_factors. okb.
-  destruct (2 <=? ndim s), (zlen us =? ndim s), (in_range (ndim s) n); cbn [andb]; rewrite ?andb_false_r, ?andb_true_r; reflexivity.
+  unfold guard_ttensor_mttkrp, guard_tensor_mttkrp, guard_mttkrp_factors. cbv zeta. okb.
+  destruct (2 <=? ndim s), (zlen us =? ndim s), (in_range (ndim s) n), (forallb _ _), (mttkrp_cols_ok (ndim s) us n); reflexivity.
 Qed.
 
 (* ---- cp_apr ---- *)
